@@ -63,6 +63,8 @@ type harness struct {
 	// probes
 	mustLoadFatal bool // malformed file terminates the process (unfixed DefaultFileParser)
 	faultChecks   int
+	skipKinds     string            // observer kinds the history stream must not use (after a worker crash)
+	curFile       string            // where the history in progress is mirrored (worker process)
 	defaults      map[string]string // ApplyDefault's table, taken from the implementation
 	defaultKeys   []string
 	notifyReset   bool           // the implementation runs the observers after a reset to the defaults (fix-D46 applied)
@@ -1072,6 +1074,7 @@ func main() {
 		vh.Die("tmp: %v", err)
 	}
 	h.tmp = tmp
+	os.Chmod(tmp, 0o755) // a child that drops its privileges must be able to reach its files
 	defer os.RemoveAll(tmp)
 
 	nParse, nWrite, nHist, steps := 1500, 700, 250, 10
@@ -1095,10 +1098,11 @@ func main() {
 	lap("parse stream + full-grammar rendering")
 	h.streamWrite(nWrite)
 	lap("write-back stream")
-	h.streamHistory(nHist, steps)
-	lap("history stream")
+	h.historyWorker(nHist, steps)
+	lap("history stream (worker process)")
 	h.streamWriteFault()
-	lap("write-fault children")
+	h.streamCreateFault()
+	lap("write-fault + create-fault children")
 	h.runDriver()
 	lap("driver + comparison")
 	h.streamCrash()
